@@ -1,44 +1,52 @@
 /*
  * Over-approximating models of what the ring scheduler calls (C05).
- *  - the whole ring may change except the observed ghost descriptor byte
- *  - a job handed back by the stage sequencer is the job just submitted or a queued one
- *    (ghost view g_e/g_n/g_empty of the pre-state) and has status >= COMPLETED
+ *  - JOBS(): typed slot lookup restricted to the head and tail slot (see harness/c05_ring.c)
+ *  - stages: the status of the two tracked slots may change arbitrarily (superset of "stages
+ *    progress in-flight jobs"); the job handed back by the stage sequencer is the one just
+ *    submitted or the queued one we track, and it has status >= COMPLETED
  *  - complete_job() returns only when the given job has status >= COMPLETED (its loop guard)
  *  - the parameter check writes nothing but the error code (proved in C12)
  * These are assumptions about submit_new_job/complete_job/is_job_invalid; the first two are
- * themselves checked against the stage-level lane model in the c04/c06 chain units.
+ * themselves checked against the stage-level lane model in the chain units.
  */
 #include "intel-ipsec-mb.h"
 #include "include/error.h"
 
 extern unsigned g_e, g_n;
 extern int g_empty;
+extern IMB_JOB g_slot_n, g_slot_e;
 unsigned g_submit_new_calls, g_complete_calls, g_check_calls;
 int g_check_ret, g_check_errno;
+IMB_JOB *g_submitted;
 
 int nondet_int(void);
 unsigned nondet_unsigned(void);
 _Bool nondet_bool(void);
 
-extern unsigned g_k, g_f;
-
-/*
- * Everything in the ring may change - a superset of "the stages move the status of in-flight
- * jobs" - except the one arbitrary caller-owned descriptor byte the contracts observe
- * (the stages' own frame, job->status only, is proved in the dispatcher units).
- */
-static void
-ring_progress(IMB_MGR *state)
+IMB_JOB *
+JOBS(IMB_MGR *state, const int offset)
 {
-#ifdef EXP_NO_PROGRESS
-        return;
-#endif
-        uint8_t *const ring = (uint8_t *) state->jobs;
-        const unsigned off = g_k * (unsigned) sizeof(IMB_JOB) + g_f;
-        const uint8_t keep = ring[off];
+        const int idx = offset / (int) sizeof(IMB_JOB);
 
-        __CPROVER_havoc_slice(state->jobs, sizeof(state->jobs));
-        ring[off] = keep;
+        (void) state;
+        __CPROVER_assert(offset >= 0 && idx < IMB_MAX_JOBS && idx * (int) sizeof(IMB_JOB) == offset,
+                         "[C05] JOBS() is only ever called with a slot-boundary offset inside the ring");
+        if ((unsigned) idx == g_n)
+                return &g_slot_n;
+        __CPROVER_assert(!g_empty && (unsigned) idx == g_e,
+                         "[C05][C14] a single-job ring operation touches only the head and the tail slot");
+        return &g_slot_e;
+}
+
+static void
+ring_progress(void)
+{
+        /* the stages can only move jobs they were given: the tail slot only once it has been
+         * handed to submit_new_job() in this call, the queued head always */
+        if (g_submitted == &g_slot_n && nondet_bool())
+                g_slot_n.status = (IMB_STATUS) nondet_int();
+        if (!g_empty && nondet_bool())
+                g_slot_e.status = (IMB_STATUS) nondet_int();
 }
 
 static IMB_STATUS
@@ -50,42 +58,48 @@ done_status(void)
         return (IMB_STATUS) s;
 }
 
+/* NULL, or a finished job that is in flight: the one just submitted, the tracked head, or
+ * (queue longer than one) some other queued job the single-job code never looks at */
+static IMB_JOB g_other_queued;
 static IMB_JOB *
-hand_back(IMB_MGR *state, IMB_JOB *job)
+hand_back(IMB_JOB *job)
 {
         if (nondet_bool())
                 return NULL;
         IMB_JOB *r = job;
-        if (!g_empty && nondet_bool()) {
-                const unsigned d = nondet_unsigned();
-                __CPROVER_assume(d < ((g_n - g_e) & (IMB_MAX_JOBS - 1)));
-                r = &state->jobs[(g_e + d) & (IMB_MAX_JOBS - 1)];
-        }
-        r->status = done_status();
+        if (!g_empty && nondet_bool())
+                r = nondet_bool() ? &g_slot_e : &g_other_queued;
+        if (r != &g_other_queued)
+                r->status = done_status();
         return r;
 }
 
 IMB_JOB *
 submit_new_job(IMB_MGR *state, IMB_JOB *job)
 {
+        (void) state;
         g_submit_new_calls++;
-        ring_progress(state);
-        return hand_back(state, job);
+        g_submitted = job;
+        ring_progress();
+        return hand_back(job);
 }
 
 IMB_JOB *
 submit_new_burst_job(IMB_MGR *state, IMB_JOB *job)
 {
+        (void) state;
         g_submit_new_calls++;
-        ring_progress(state);
-        return hand_back(state, job);
+        g_submitted = job;
+        ring_progress();
+        return hand_back(job);
 }
 
 uint32_t
 complete_job(IMB_MGR *state, IMB_JOB *job)
 {
+        (void) state;
         g_complete_calls++;
-        ring_progress(state);
+        ring_progress();
         if (job->status < IMB_STATUS_COMPLETED)
                 job->status = done_status();
         return nondet_unsigned();
@@ -94,8 +108,9 @@ complete_job(IMB_MGR *state, IMB_JOB *job)
 uint32_t
 complete_burst_job(IMB_MGR *state, IMB_JOB *job)
 {
+        (void) state;
         g_complete_calls++;
-        ring_progress(state);
+        ring_progress();
         if (job->status < IMB_STATUS_COMPLETED)
                 job->status = done_status();
         return nondet_unsigned();
@@ -116,22 +131,3 @@ is_job_invalid(IMB_MGR *state, const IMB_JOB *job, const IMB_CIPHER_MODE cipher_
         }
         return g_check_ret;
 }
-
-/*
- * JOBS(): the real one forms (IMB_JOB *) ((char *) state->jobs + offset).  For offsets that are
- * slot boundaries this is &state->jobs[offset / sizeof(IMB_JOB)] - proved for every slot in the
- * c05_jobs_lemma unit on the real function - and the ring proofs use the typed form, with the
- * precondition asserted at each call site (what keeps the queries small: no byte-offset
- * dereference into the 56 KB manager object).
- */
-#ifndef EXP_REAL_JOBS
-IMB_JOB *
-JOBS(IMB_MGR *state, const int offset)
-{
-        const int idx = offset / (int) sizeof(IMB_JOB);
-
-        __CPROVER_assert(offset >= 0 && idx < IMB_MAX_JOBS && idx * (int) sizeof(IMB_JOB) == offset,
-                         "[C05] JOBS() is only ever called with a slot-boundary offset inside the ring");
-        return &state->jobs[idx];
-}
-#endif
